@@ -183,6 +183,18 @@ def run(chk):
                'the STRICT-only refusal in this function is gone: STRICT now lets in %s' % what, fi.loc,
                key='C05-L|required|%s' % fq)
 
+    # ---- F: the guards that STRICT enforces are evaluated for the element's own version and level
+    chk.rule('C05-F', 'element methods pass the element\'s own version / validation level to every datatype or structure test they '
+                      'make (a guard evaluated for the default version does not enforce anything for other versions)')
+    elem = ix.cls('core.Element')
+
+    def in_elem(fq):
+        fi = ix.functions[fq]
+        k = fi.cls or (fi.outer.cls if fi.outer else None)
+        return k is not None and (elem in k.mro or k.qualname == 'core.ElementList')
+    nfw = forwarding.check_forwarding(chk, c, 'C05-F', ('version', 'validation_level'), only_callers=in_elem, check_own=True)
+    chk.floor('context hand-offs inside element methods', nfw, 60)
+
     # ---- D
     c10.admission(chk, c, 'C05-D')
 
